@@ -225,6 +225,8 @@ def out_shape(pos, T, v):
         return {'k': 'arr', 'of': T}, [v, v]
     if pos == 'attr':
         return {'k': 'obj', 'name': 'C', 'fields': [['v', {'k': 'attr', 'of': T}], ['w', {'k': 'prim', 'p': 'Integer'}]]}, {'v': v, 'w': 1}
+    if pos == 'attr_required':
+        return {'k': 'obj', 'name': 'C', 'fields': [['v', {'k': 'attr', 'of': T, 'use': 'required'}], ['w', {'k': 'prim', 'p': 'Integer'}]]}, {'v': v, 'w': 1}
 
 
 def outputs(ctx):
@@ -246,11 +248,11 @@ def outputs(ctx):
         if c['group'] in ('occ', 'nil'):
             poss = ['field']
         elif c['group'] == 'out' and c['ty'] == 'ByteArray' or T.get('k') == 'enum':
-            poss = ['ret', 'field', 'array', 'attr']
+            poss = ['ret', 'field', 'array', 'attr', 'attr_required']
         else:
-            poss = ['ret', 'field', 'array', 'attr']
+            poss = ['ret', 'field', 'array', 'attr', 'attr_required']
         for pos in poss:
-            if pos in ('array', 'attr') and v is None:
+            if pos in ('array', 'attr', 'attr_required') and v is None:
                 continue
             for fam in fams:
                 key = (json.dumps(T, sort_keys=True, default=str), pos, fam)
